@@ -153,6 +153,22 @@ Theorem copyright_roundtrip hops ps form strict :
     /\ map para_view (cd_paras c1) = map expected_view (expected_order ps).
 Proof. exact (copyright_roundtrip_from_reader reader_ok hops ps form strict). Qed.
 
+(** survival on the wider domain [wf_copyright_weak] *)
+Theorem copyright_survives hops ps form strict :
+  wf_copyright_weak hops ps = true ->
+  exists c1,
+    build_doc (map hop_of_shop hops) (map pspec_of_spara ps) = Ok c1
+    /\ copyright_parse strict (input_of_text form (cdump c1)) = Ok c1
+    /\ map is_files (cd_paras c1) = map is_pfiles (expected_order ps).
+Proof. exact (copyright_survives_from_reader reader_ok hops ps form strict). Qed.
+
+Theorem run_doc_same hops ps form strict :
+  wf_copyright_weak hops ps = true ->
+  exists t v,
+    run_doc (map hop_of_shop hops) (map pspec_of_spara ps) form strict = RDone t v v t
+    /\ map pv_files (tl v) = map is_pfiles (expected_order ps).
+Proof. exact (run_doc_survives reader_ok hops ps form strict). Qed.
+
 Theorem run_doc_identity hops ps form strict :
   wf_copyright hops ps = true ->
   exists t hv,
